@@ -11,7 +11,7 @@ Theorem C02_get_checkers_info_det : forall (A : Type) (key : A -> N) (reg order 
 Proof. exact @get_checkers_info_det. Qed.
 Print Assumptions C02_get_checkers_info_det.
 
-(* dupImport on the unchanged tree: the SET of warnings is deterministic ... *)
+(* the pre-fix dupImport loop (kept as the model of what was repaired): the SET of warnings was deterministic ... *)
 Theorem C02_dup_import_set_det : forall order order', Permutation order order' ->
   Permutation (dup_import_run order) (dup_import_run order').
 Proof. exact dup_import_set_det. Qed.
@@ -56,14 +56,18 @@ Theorem C02_map_sites_covered :
 Proof. vm_compute. reflexivity. Qed.
 Print Assumptions C02_map_sites_covered.
 
-(* the refuted lemma is about the CURRENT code: the emitting range over the import groups is still there
-   (this obligation is the one that changes when the defect is repaired; see repo_patches/postfix/) *)
-Theorem C02_dup_import_site_present :
-  existsb (fun m => let 'M _ f fn e em _ _ _ _ := m in
-                    String.eqb f "dupImports_checker.go" && String.eqb fn "dupImportChecker.WalkFile" && String.eqb e "imports" && em)
-          map_range_sites = true.
+(* after repo_patches/c02-fix-dupImport.diff: the checker no longer ranges over the map while emitting
+   (it visits the groups in order of first occurrence), so the emitting site is gone from the inventory ... *)
+Theorem C02_dup_import_site_absent :
+  existsb (fun m => let 'M _ f _ _ _ _ _ _ _ := m in String.eqb f "dupImports_checker.go") map_range_sites = false.
 Proof. vm_compute. reflexivity. Qed.
-Print Assumptions C02_dup_import_site_present.
+Print Assumptions C02_dup_import_site_absent.
+
+(* ... and the repaired checker takes no iteration-order oracle at all: its output is a function of the import list.
+   It equals the unchanged checker's output under the source-order permutation, so the set of warnings is unchanged. *)
+Theorem C02_dup_import_fixed_det : forall imps, dup_import_run_fixed imps = dup_import_run (dup_groups imps).
+Proof. intros. exact eq_refl. Qed.
+Print Assumptions C02_dup_import_fixed_det.
 
 Theorem C02_inventory_sane :
   (8 <=? N.of_nat (length map_range_sites))%N = true
